@@ -573,11 +573,20 @@ def _sem(fields, drop):
 
 
 def _pseudo(block):
+    """the leading run of pseudo-headers (what precedes the first regular field)"""
     d = {}
     for n, v in block:
-        if n.startswith(b":"):
-            d.setdefault(n, v)
+        if not n.startswith(b":"):
+            break
+        d.setdefault(n, v)
     return d
+
+
+def _regular(block):
+    for i, (n, _) in enumerate(block):
+        if not n.startswith(b":"):
+            return block[i:]
+    return []
 
 
 def _show(b):
@@ -603,7 +612,7 @@ def oracle_downreq(c, o):
     up = unhx(o["up"])
     block, body = _blk(c["h"]), (unhx(c["body"]) if c["body"] is not None else b"")
     ps = _pseudo(block)
-    regular = [(n, x) for n, x in block if not n.startswith(b":")]
+    regular = _regular(block)
     for name, opts in (("strict", ref.STRICT), ("lenient", ref.LENIENT)):
         try:
             qs = ref.ref_parse_requests(opts, up)
@@ -642,7 +651,7 @@ def oracle_downreq(c, o):
         if _pseudo(rh).get(b":status") != b"%d" % fr["status"]:
             bad("status-changed", f"status {fr['status']} became {_pseudo(rh).get(b':status')}")
         want = [(n, x.strip(b" \t")) for n, x in _lc(_blk(fr["fields"])) if n not in HOP]
-        got = [(n, x) for n, x in rh if not n.startswith(b":")]
+        got = _regular(rh)
         if want != got:
             bad("response-fields-changed", f"HTTP/1 response fields {want} became {got}")
         if fr["status"] not in (204, 304) and unhx(o["resp_body"]) != unhx(fr["body"]):
@@ -676,7 +685,7 @@ def oracle_downresp(c, o):
         if h1_hosts and ps.get(b":authority") != b", ".join(h1_hosts):
             bad("up-host-changed", f"Host {h1_hosts} became :authority {ps.get(b':authority')}")
         want, want_cookie = _sem(h1_fields, HOP | {b"host"})
-        got, got_cookie = _sem([(n, x) for n, x in rh if not n.startswith(b":")], set())
+        got, got_cookie = _sem(_regular(rh), set())
         if want != got or want_cookie != got_cookie:
             bad("up-fields-changed", f"HTTP/1 request fields {want} {want_cookie} became {got} {got_cookie}")
     if o.get("error") is not False or not o["down"]:
@@ -684,7 +693,7 @@ def oracle_downresp(c, o):
     down = unhx(o["down"])
     block, body = _blk(c["h"]), (unhx(c["body"]) if c["body"] is not None else b"")
     ps = _pseudo(block)
-    regular = [(n, x) for n, x in block if not n.startswith(b":")]
+    regular = _regular(block)
     st = ps.get(b":status", b"")
     for name, opts in (("strict", ref.STRICT), ("lenient", ref.LENIENT)):
         try:
@@ -728,6 +737,8 @@ def oracle(case, obs):
         if k == "fmtreq" and obs["exc"] == "UnicodeEncodeError":
             return [{"key": "h1-host-not-utf8-crash", "what": "format_h2_request_headers returns a str :authority that h2 cannot encode"}]
         return [{"key": "unexpected-exception-" + obs["exc"], "what": f"{k}: {obs['exc']}"}]
+    if obs.get("peer_exc") == "InvalidBodyLengthError" and k == "downreq" and not obs.get("up") and _pseudo(_blk(case["h"])).get(b":method") == b"HEAD":
+        return [{"key": "error-page-body-on-head-over-h2", "what": "mitmproxy answers a refused HTTP/2 HEAD request with its own error page including DATA"}]
     if obs.get("peer_exc"):
         return [{"key": "peer-exception-" + obs["peer_exc"], "what": f"{k}: the h2 peer could not decode what mitmproxy sent"}]
     if k == "downreq":
@@ -740,8 +751,7 @@ def oracle(case, obs):
         m, s, a, p, fields = obs["res"]
         if (unhx(m), unhx(s), unhx(p)) != (ps.get(b":method"), ps.get(b":scheme"), ps.get(b":path")) or unhx(a) != ps.get(b":authority", b""):
             return [{"key": "parse-changes-pseudo-headers", "what": f"{ps} parsed as {obs['res'][:4]}"}]
-        if _blk(fields) != [(n, x) for n, x in _blk(case["h"]) if not n.startswith(b":")][:len(fields)] and not any(
-                n.startswith(b":") for n, _ in _blk(fields)):
+        if _blk(fields) != _regular(_blk(case["h"])):
             return [{"key": "parse-changes-fields", "what": "regular fields changed by parse_h2_request_headers"}]
     if k == "fmtresp" and obs["res"] is not None:
         rh = _blk(obs["res"])
